@@ -23,7 +23,8 @@
 
     Left out: the work done inside the critical section (Model/Reservation.v
     models each section as one atomic step -- that atomicity is what
-    [group_mutex_exclusion] justifies), mapMutex itself (its two bodies are the
+    [group_mutex_exclusion] justifies; Model/Sections.v adds bodies to this
+    very protocol and Proofs/Sections.v derives the atomicity), mapMutex itself (its two bodies are the
     atomic steps A1 and R1), fairness / liveness.
     No proofs in this file. *)
 From Coq Require Import List ZArith Bool PArith.
